@@ -113,7 +113,7 @@ def split_output(out):
     return got, "\n".join(rest)
 
 
-def run_cases(variant, make_text, n, tag="c19", timeout=900):
+def run_cases(variant, make_text, n, tag="c19", timeout=900, max_stops=12):
     """make_text(start, end, flush) -> program printing one '>' line per case.  Returns (lines, events);
     lines[i] is None for a case that produced no line; events = [(kind, index, rc, tail)]."""
     lines = [None] * n
@@ -126,6 +126,10 @@ def run_cases(variant, make_text, n, tag="c19", timeout=900):
         res = common.evalbatch(variant, [path], timeout=timeout if not flush else max(180, timeout // 3), cwd=d)
         shutil.rmtree(d, ignore_errors=True)
         got, tail = split_output(res.out)
+        hdr = re.search(r"ERROR: AddressSanitizer.*", res.out)
+        if hdr:
+            frames = "\n".join(re.findall(r"^\s+#\d+ .*$", res.out, re.M)[:8])
+            tail = hdr.group(0) + "\n" + frames + "\n" + tail[-600:]
         for k, l in enumerate(got):
             if start + k < n:
                 lines[start + k] = l
@@ -138,10 +142,10 @@ def run_cases(variant, make_text, n, tag="c19", timeout=900):
             # every case printed its line; only a sanitizer report or a bad exit status is an event
             # (a ;;EXC here belongs to a case that still completed its line in one-form-per-case mode)
             if asan or res.rc != 0 or res.timed_out:
-                events.append(("asan" if asan else "exit", n - 1, res.rc, tail[-1500:]))
+                events.append(("asan" if asan else "exit", n - 1, res.rc, tail[:1800] if hdr else tail[-1500:]))
             break
         stops += 1
-        if stops > 12:
+        if stops > max_stops:
             if events and all(e[0] == "escaped" for e in events) and not any(l is not None for l in lines):
                 raise common.HarnessError("driver does not run (%s): %s" % (tag, res.out[-1200:]))
             events.append(("gave-up", done, n - done, tail[-600:]))      # third field: cases not run
@@ -156,7 +160,7 @@ def run_cases(variant, make_text, n, tag="c19", timeout=900):
             flush, start = True, done      # run again from the last complete line, flushing every line
             continue
         kind = "timeout" if res.timed_out else ("asan" if asan else "signal")
-        events.append((kind, done, res.rc, tail[-1500:]))
+        events.append((kind, done, res.rc, tail[:1800] if hdr else tail[-1500:]))
         lines[done] = None
         start = done + 1
     return lines, events
@@ -900,6 +904,64 @@ def job_json_esc(variant):
             r.outcomes["json-esc1:FAIL"] += 1
         else:
             r.outcomes["json-esc1:ok"] += 1
+    return r
+
+
+NEST_DEPTHS = [1, 10, 100, 1000, 10000, 100000, 1000000]
+NEST_SHAPES = [("array", "[", "]", "1"), ("object", "{\"a\":", "}", "1"), ("mixed", "[{\"a\":", "}]", "null")]
+
+
+def job_json_nesting(variant):
+    """nesting depth 10^0..10^6, complete and truncated texts through string->json, nested vectors/alists through
+    json->string: a value or an error, never a crash (RFC 8259 section 9 allows a depth limit, i.e. an error)"""
+    r = JobResult("json nesting depth up to 10^6", variant)
+    cases = []
+    for d in NEST_DEPTHS:
+        for name, op, cl, leaf in NEST_SHAPES:
+            cases.append(("read-complete", name, d))
+            cases.append(("read-truncated", name, d))
+        cases.append(("write-array", "array", d))
+        cases.append(("write-object", "object", d))
+    base = (JSON_IMPORTS + PRE + JSON_PRE + r"""
+(define (rep s n) (let ((o (open-output-string))) (do ((i 0 (+ i 1))) ((= i n) (get-output-string o)) (write-string s o))))
+(define (nest-vec n) (let lp ((i 0) (v 1)) (if (= i n) v (lp (+ i 1) (vector v)))))
+(define (nest-obj n) (let lp ((i 0) (v 1)) (if (= i n) v (lp (+ i 1) (list (cons 'a v))))))
+(define (depth-of x) (let lp ((x x) (n 0)) (cond ((and (vector? x) (= 1 (vector-length x))) (lp (vector-ref x 0) (+ n 1)))
+                                                   ((and (pair? x) (pair? (car x))) (lp (cdar x) (+ n 1)))
+                                                   (else n))))
+(define CASES (vector %s))
+(define (case-at i)
+  (guard (x (#t (write-char #\E)))
+    (let ((r ((vector-ref CASES i))))
+      (cond ((string? r) (write-char #\s) (write (string-length r)))
+            (else (write-char #\d) (write (depth-of r)))))))
+""" % "\n".join(
+        {"read-complete": "(lambda () (string->json (string-append (rep %s %d) %s (rep %s %d))))",
+         "read-truncated": "(lambda () (string->json (rep %s %d)))",
+         "write-array": "(lambda () (json->string (nest-vec %d)))",
+         "write-object": "(lambda () (json->string (nest-obj %d)))"}[k] % (
+            (sstr(dict((n, o) for n, o, c, l in NEST_SHAPES)[name]), d, sstr(dict((n, l) for n, o, c, l in NEST_SHAPES)[name]),
+             sstr(dict((n, c) for n, o, c, l in NEST_SHAPES)[name]), d) if k == "read-complete" else
+            (sstr(dict((n, o) for n, o, c, l in NEST_SHAPES)[name]), d) if k == "read-truncated" else (d,))
+        for k, name, d in cases))
+
+    def mk(s, e, fl):
+        return base + loop(s, e, fl)
+
+    lines, events = run_cases(variant, mk, len(cases), "c19jn", timeout=600, max_stops=60)
+    r.events(events, "json-nesting", lambda c: "%s %s depth %d" % cases[c], lambda c: mk(c, c + 1, True))
+    for c, line in enumerate(lines):
+        if line is None:
+            continue
+        k, name, d = cases[c]
+        r.n += 1
+        r.nontrivial += 1
+        mult = 2 if name == "mixed" else 1
+        if k == "read-complete" and line not in ("E", "d%d" % (d * mult)):
+            r.violation("json-read-nesting", {"shape": name, "depth": d, "got": line},
+                        "string->json of %d nested %ss returned a value of depth %s" % (d, name, line), mk(c, c + 1, True), line)
+        r.outcomes["json-nesting:%s:%s" % (k, "error" if line == "E" else "value")] += 1
+    r.samples.append("string->json of 10^k '[' / '{\"a\":' with and without the closing half, json->string of 10^k nested vectors")
     return r
 
 
@@ -1817,6 +1879,7 @@ def jobs_for(tier):
         for lo, hi in chunks(1024, 32):
             J.append(("json", "job_json_u2", ("asan", allhi[lo:hi], alllo + nonlo)))
     J.append(("json", "job_json_esc", ("asan",)))
+    J.append(("json", "job_json_nesting", ("asan",)))
     for ln in range(4 if q else 5, -1, -1):
         for lo, hi in chunks(len(JSON_ALPHA) ** ln, 60000):
             J.append(("json", "job_json_texts", ("asan", "chars", ln, lo, hi)))
